@@ -104,3 +104,15 @@ Qed.
 (* the persistent attributes of the current source are exactly the cells the models account for *)
 Lemma cells_checked : cells_ok gen_cells = true.
 Proof. vm_compute. reflexivity. Qed.
+
+(* every cache-key attribute of the current source, except the listed by-reference ones, is assigned a
+   constant, a copy or an immutable scalar *)
+Lemma keys_checked : keys_complete gen_key_stores && keys_ok gen_key_stores = true.
+Proof. vm_compute. reflexivity. Qed.
+
+Lemma keys_ok_sound g : keys_ok g = true ->
+  forall c a m k, In (c, a, m, k) g -> in_known c a = false -> kstore_by_value k = true.
+Proof.
+  intros H c a m k Hin Hn. unfold keys_ok in H. rewrite forallb_forall in H.
+  specialize (H _ Hin). cbv beta iota in H. rewrite Hn in H. rewrite Bool.orb_false_r in H. exact H.
+Qed.
